@@ -961,7 +961,7 @@ packet not handled by the conntrack / encap preamble, evaluation of the endpoint
 RETURN with the accept bit set iff `endpointVerdict` = allow, and in DROP/REJECT iff deny.
 `out` gives the outcome per jump target: a policy's `policyOutcome`, or for a group chain the first
 deciding enforced member. -/
-theorem endpoint_chain_verdict (cfg : Cfg) (mo : MarksOK cfg) (vb : VBits cfg) (vd : VD cfg) (e : EpCfg) (env : Env)
+theorem endpoint_chain_verdict_core (cfg : Cfg) (mo : MarksOK cfg) (vb : VBits cfg) (vd : VD cfg) (e : EpCfg) (env : Env)
     (pkt : Packet) (chains : List Chain) (name : String) (tiers : List Tier) (profiles : List String)
     (polRules : String → List Policy.Rule) (out : String → PolOutcome) (F : Nat) (m : Mark)
     (hn : e.chainType = .normal) (hup : e.adminUp = true) (hfs : e.failsafe = "")
